@@ -102,7 +102,8 @@ def main(tier):
     run = Run("C12", tier)
     sd = seed()
     n = 72 if tier == "quick" else 1200
-    jobs = corpus.all_singles(sd) + corpus.draw(n, sd, families=["mixed", "mixed", "branch", "chain", "lut", "wide", "single", "inplace", "inplace", "widen", "diamonds", "resize"])
+    jobs = corpus.all_singles(sd) + corpus.draw(n, sd, families=["mixed", "mixed", "branch", "chain", "lut", "wide", "single", "inplace", "inplace", "widen", "diamonds", "resize",
+                                                              "cpuouts", "cpuouts", "memcpy"])
     import random
     rng = random.Random(sd)
     for j in jobs:       # alignment is this property's own dimension: sweep it on every job
